@@ -683,3 +683,102 @@ Proof.
     apply select_output_header_js_inj.
   - apply select_output_header_js_inj.
 Qed.
+
+(* ------------------------------------------------------------------ the list-level side conditions are automatic for the plain items *)
+Definition inK (c : ch) : bool := is_word c || N.eqb c DOT || N.eqb c LBR || N.eqb c RBR.        (* [a-zA-Z0-9_.\[\]] *)
+Definition no_star_comma (c : ch) : bool := negb (N.eqb c STAR) && negb (N.eqb c COMMA).
+Definition plain_ch (c : ch) : bool := negb (N.eqb c COMMA) && negb (is_open c) && negb (is_close c).
+
+Lemma inK_nsc : forall c, inK c = true -> no_star_comma c = true.
+Proof. intros c H. unfold inK, no_star_comma in *. cls. Qed.
+Lemma inK_not_ws : forall c, inK c = true -> js_ws c = false.
+Proof. intros c H. unfold inK in *. cls. Qed.
+Lemma word_inK : forall c, is_word c = true -> inK c = true.
+Proof. intros c H. unfold inK. rewrite H. reflexivity. Qed.
+Lemma word_plain : forall c, is_word c = true -> plain_ch c = true.
+Proof. intros c H. unfold plain_ch, is_open, is_close, LBRACE, RBRACE, LPAR, RPAR. cls. Qed.
+
+Lemma forallb_lstrip : forall (f g : ch -> bool) x, forallb g x = true -> forallb g (lstrip_by f x) = true.
+Proof.
+  intros f g x. induction x as [|c x IH]; intro H; [reflexivity|]. cbn [lstrip_by]. destruct (f c); [|exact H].
+  cbn [forallb] in H. apply andb_true_iff in H. exact (IH (proj2 H)).
+Qed.
+
+Lemma star_free_nsc : forall x, forallb no_star_comma x = true -> star_free x = true.
+Proof.
+  intros x H. unfold star_free. apply andb_true_iff. split.
+  - unfold star_body, drop_sp. pose proof (forallb_lstrip is_sp _ x H) as Q. destruct (lstrip_by is_sp x) as [|c r]; [reflexivity|].
+    cbn [forallb] in Q. apply andb_true_iff in Q. destruct Q as [Q1 Q2]. unfold no_star_comma in Q1. apply andb_true_iff in Q1.
+    destruct Q1 as [Q1 _]. apply negb_true_iff in Q1. rewrite Q1. destruct r as [|d [|e r']]; try reflexivity.
+    cbn [forallb] in Q2. apply andb_true_iff in Q2. destruct Q2 as [_ Q2]. apply andb_true_iff in Q2. destruct Q2 as [Q2 _].
+    unfold no_star_comma in Q2. apply andb_true_iff in Q2. destruct Q2 as [Q2 _]. apply negb_true_iff in Q2. rewrite Q2, andb_false_r. reflexivity.
+  - induction x as [|c x IH]; [reflexivity|]. cbn [forallb] in H. apply andb_true_iff in H. destruct H as [H1 H2]. cbn [inner_star_free].
+    unfold no_star_comma in H1. apply andb_true_iff in H1. destruct H1 as [_ H1]. apply negb_true_iff in H1. rewrite H1. exact (IH H2).
+Qed.
+
+Lemma trimmed_inK : forall x, x <> [] -> forallb inK x = true -> trimmed x = true.
+Proof.
+  intros x Hne H. unfold trimmed. destruct x as [|c x]; [contradiction|]. cbn [nonempty andb].
+  apply andb_true_iff. split.
+  - cbn [forallb] in H. apply andb_true_iff in H. cbn [head_out]. rewrite (inK_not_ws c (proj1 H)). reflexivity.
+  - rewrite <- forallb_rev in H. destruct (rev (c :: x)) as [|d r]; [reflexivity|]. cbn [forallb] in H. apply andb_true_iff in H.
+    cbn [head_out]. rewrite (inK_not_ws d (proj1 H)). reflexivity.
+Qed.
+
+Lemma depth_scan_plain : forall x y st, forallb plain_ch x = true -> depth_scan (x ++ y) st = depth_scan y st.
+Proof.
+  induction x as [|c x IH]; intros y st H; [reflexivity|]. cbn [forallb] in H. apply andb_true_iff in H. destruct H as [H1 H2].
+  cbn [app depth_scan]. unfold plain_ch in H1. apply andb_true_iff in H1. destruct H1 as [H1 Hc]. apply andb_true_iff in H1. destruct H1 as [Hk Ho].
+  apply negb_true_iff in Hk, Ho, Hc. rewrite Hk. cbn [andb]. unfold br_step. rewrite Ho, Hc. exact (IH y st H2).
+Qed.
+
+Lemma top_ok_plain : forall x, forallb plain_ch x = true -> top_ok x = true.
+Proof. intros x H. unfold top_ok. rewrite <- (app_nil_r x), (depth_scan_plain x [] [] H). reflexivity. Qed.
+
+Lemma top_ok_bracketed : forall p y, forallb plain_ch p = true -> forallb plain_ch y = true -> top_ok (p ++ LBR :: y ++ [RBR]) = true.
+Proof.
+  intros p y Hp Hy. unfold top_ok. rewrite (depth_scan_plain p _ [] Hp). cbn [depth_scan]. change (N.eqb LBR COMMA && negb (nonempty [])) with false. cbv iota.
+  change (br_step LBR []) with (Some [LBR]). cbv iota. rewrite (depth_scan_plain y [RBR] [LBR] Hy). reflexivity.
+Qed.
+
+Definition is_plain (r : ritem) : bool := match r with RAs _ _ _ _ | ROther _ => false | _ => true end.
+
+Lemma digits_word : forall ds, forallb is_digit ds = true -> forallb is_word ds = true.
+Proof. intros ds H. exact (forallb_imp _ _ ds digit_word H). Qed.
+
+Lemma item_ok_from_K : forall lits r, wf_item lits r = true -> is_star_item r = false -> render_marked r = render_item r ->
+  render_item r <> [] -> forallb inK (render_item r) = true -> top_ok (render_item r) = true -> item_ok lits r = true.
+Proof.
+  intros lits r W S E Hne K T. unfold item_ok, star_ok. rewrite W, S, E, T, (trimmed_inK _ Hne K).
+  rewrite (star_free_nsc _ (forallb_imp _ _ _ inK_nsc K)). reflexivity.
+Qed.
+
+Theorem item_ok_plain : forall lits r, is_plain r = true -> wf_item lits r = true -> item_ok lits r = true.
+Proof.
+  intros lits r P W. destruct r as [t ds|t ds|t n|t ks n|n| | | |e up gap a|x]; try discriminate; try (unfold item_ok; rewrite W; reflexivity).
+  - (* aDS *) destruct (numeral_ok_inv ds W) as (H1 & H2 & _). pose proof (digits_word ds H2) as Wd.
+    apply item_ok_from_K; try reflexivity; try exact W; try discriminate; cbn [render_item].
+    + cbn [forallb]. rewrite (word_inK _ (ident_start_word _ (tbl_ch_word t))). exact (forallb_imp _ _ ds word_inK Wd).
+    + apply top_ok_plain. cbn [forallb]. rewrite (word_plain _ (ident_start_word _ (tbl_ch_word t))). exact (forallb_imp _ _ ds word_plain Wd).
+  - (* a[DS] *) destruct (numeral_ok_inv ds W) as (H1 & H2 & _). pose proof (digits_word ds H2) as Wd.
+    apply item_ok_from_K; try reflexivity; try exact W; try discriminate; cbn [render_item].
+    + cbn [forallb]. rewrite forallb_app, (word_inK _ (ident_start_word _ (tbl_ch_word t))), (forallb_imp _ _ ds word_inK Wd). reflexivity.
+    + apply (top_ok_bracketed [tbl_ch t] ds); [destruct t; reflexivity|exact (forallb_imp _ _ ds word_plain Wd)].
+  - (* a.name *) cbn [wf_item] in W. apply andb_true_iff in W. destruct W as [W1 W2]. destruct (is_ident_word n W1) as [Wn _].
+    apply item_ok_from_K; try reflexivity; try discriminate; cbn [render_item wf_item].
+    + rewrite W1, W2. reflexivity.
+    + cbn [forallb]. rewrite (word_inK _ (ident_start_word _ (tbl_ch_word t))), (forallb_imp _ _ n word_inK Wn). reflexivity.
+    + apply top_ok_plain. cbn [forallb]. rewrite (word_plain _ (ident_start_word _ (tbl_ch_word t))), (forallb_imp _ _ n word_plain Wn). reflexivity.
+  - (* a[literal] *) pose proof W as W0. cbn [wf_item] in W. apply andb_true_iff in W. destruct W as [W _]. apply andb_true_iff in W. destruct W as [H1 H2].
+    pose proof (digits_word ks H2) as Wd.
+    apply item_ok_from_K; try reflexivity; try exact W0; try discriminate; cbn [render_item].
+    + cbn [forallb]. rewrite !forallb_app, (word_inK _ (ident_start_word _ (tbl_ch_word t))), (forallb_imp _ _ ks word_inK Wd). reflexivity.
+    + replace (tbl_ch t :: LBR :: PH_PREFIX ++ ks ++ PH_SUFFIX ++ [RBR]) with ([tbl_ch t] ++ LBR :: (PH_PREFIX ++ ks ++ PH_SUFFIX) ++ [RBR])
+        by (cbn [app]; rewrite <- !app_assoc; reflexivity).
+      apply top_ok_bracketed; [destruct t; reflexivity|]. rewrite !forallb_app, (forallb_imp _ _ ks word_plain Wd). reflexivity.
+  - (* identifier *) pose proof W as W0. cbn [wf_item] in W. apply andb_true_iff in W. destruct W as [W _]. apply andb_true_iff in W. destruct W as [W _].
+    apply andb_true_iff in W. destruct W as [W1 _]. destruct (is_ident_word n W1) as [Wn Hne].
+    apply item_ok_from_K; try reflexivity; try exact W0; try exact Hne; cbn [render_item].
+    + exact (forallb_imp _ _ n word_inK Wn).
+    + apply top_ok_plain. exact (forallb_imp _ _ n word_plain Wn).
+Qed.
